@@ -1,0 +1,40 @@
+//go:build verif
+
+// Contracts for the verification machinery in /verif (govc). Comment-only.
+
+package webp
+
+// ---- C16: what DecodeConfig announces is what Decode returns ----
+
+// A lossy frame decodes to *image.YCbCr exactly when there is no alpha data
+// to apply; otherwise (and for lossless frames) to *image.NRGBA.
+//@ func decodeLossy
+//@   property C16
+//@   ensures result1 == nil ==> (typeis(result0, *image.YCbCr) <==> len(alphaData) == 0)
+//@   ensures result1 == nil ==> typeis(result0, *image.YCbCr) || typeis(result0, *image.NRGBA)
+//
+// DecodeConfig must announce YCbCr exactly for the frames decodeLossy turns
+// into YCbCr (taken from the property: colour model equal to the decoded
+// image's colour model).
+//@ func DecodeConfig
+//@   property C16
+//@   ensures result1 == nil && len(p.frames) > 0 ==> \
+//@     (result0.ColorModel == color.YCbCrModel <==> (!p.frames[0].IsLossless && len(p.frames[0].AlphaData) == 0))
+//@   ensures result1 == nil && len(p.frames) > 0 ==> \
+//@     (result0.ColorModel == color.NRGBAModel <==> !(!p.frames[0].IsLossless && len(p.frames[0].AlphaData) == 0))
+//@   ensures result1 == nil ==> result0.Width == p.features.Width && result0.Height == p.features.Height
+//
+//@ func decodeFrame
+//@   property C16
+//
+//@ func readAll
+//@   trusted
+//@   ensures result1 == nil ==> len(result0) <= MaxInputSize
+//
+// Plane copying and chroma upsampling: 2-D index arithmetic outside the
+// verifier's reach; only the static result types matter to the callers here.
+//@ func buildYCbCr
+//@   trusted
+//
+//@ func buildNRGBA
+//@   trusted
